@@ -207,6 +207,14 @@ def build(ctx):
     ctx.cover('cover/complete-rewrite-path-exists', [z3.BoolVal(complete_runs > 0), z3.Or(success_paths)])
     ctx.cover('cover/crash-between-the-two-renames', [orig.e != fmt.e])
     part_flag(ctx)
+    # the original handed to the backup emitter (its "only if the texts differ" test): kernel shared with C06
+    import c06
+    saved_stubs = list(eng.stubs)
+    c06.part_write_file(ctx, eng, c06.replay_cli(ctx, 'files'))
+    # ... and which emitter a run gets: the backup emitter exactly when make_backup is set, whatever else is
+    eng.stubs = []
+    c06.part_create_emitter(ctx, eng, c06.replay_cli(ctx, 'create'))
+    eng.stubs = saved_stubs
     validate(ctx)
 
 
